@@ -104,7 +104,13 @@ def runShared (c : Case) (ls : List Line) : String :=
     let classes := (List.range n).map (fun t => pcName (s.pc t))
     let fin :=
       if c.status == "ok" then
-        if classes.all (· == "fin") && !s.aborted then "final ok"
+        -- the history fields of the model, about which the theorems speak, must say what the
+        -- harness observed: every started consumer got exactly one signal (C03_split_each_consumer_once)
+        let consumers := (ls.filter (·.site == "inv.consume")).map (·.a.toNat)
+        let fired := ls.any (fun l => l.site.startsWith "fire.")
+        let ghostOk := !fired || consumers.all (fun k => s.got k == 1 && (s.gotSig k).isSome)
+        if classes.all (· == "fin") && !s.aborted && ghostOk then "final ok"
+        else if !ghostOk then "final MISMATCH: model history (got/gotSig) disagrees with the run"
         else "final MISMATCH: run ended but model threads " ++ toString classes
       else if c.status == "abort" then
         if s.aborted then "final aborted-as-modelled" else "final MISMATCH: abort not modelled"
@@ -171,8 +177,14 @@ def runWA (c : Case) (ls : List Line) : String :=
   match accept WhenAll.step (WhenAll.init n) evs 0 with
   | .error (i, raw) => s!"case {c.id} reject {i} [{raw}] ; {monS}"
   | .ok s =>
+    let allFired := (List.range n).all (fun i => s.firedI i)
+    let rcvs := ls.filter (fun l => l.site.startsWith "rcv.")
+    -- the model's history must say what the theorems claim and what the harness saw
+    let ghostOk := !allFired || (s.delivered == 1 && s.result == some (WhenAll.decisionG s) &&
+      rcvs.length == 1)
     let fin := if c.status == "ok" then
-        (if (List.range c.threads.length).all (fun t => s.pc t == .fin) then "final ok"
+        (if !ghostOk then "final MISMATCH: model history (delivered/result/decisionG) disagrees with the run"
+         else if (List.range c.threads.length).all (fun t => s.pc t == .fin) then "final ok"
          else "final MISMATCH: run ended but model threads are not finished")
       else s!"final status {c.status}"
     s!"case {c.id} accept {evs.length} ; {fin} ; {monS}"
